@@ -8,10 +8,12 @@ import (
 	"fmt"
 	"sort"
 	"strings"
+	"time"
 
 	"github.com/go-spring/log"
 
 	"verifharness/hx"
+	"verifharness/sys"
 )
 
 func init() {
@@ -374,6 +376,72 @@ func cmdTagRegistry(f hx.Flags, r *hx.Result) {
 		r.SetInfra("read cases: %v", err)
 	}
 	r.NonTrivial(int64(len(distinct)))
+	log.VerifReset()
+	tagRegistryAcrossConfig(r)
+}
+
+// tagRegistryAcrossConfig: the registry's laws across a configuration cycle.  A configuration may name tags nobody
+// registered (and strings that are no tag names at all): the list of all tags still holds exactly the registered
+// names; a registration refused while the configuration is live leaves nothing behind; after Destroy the same
+// name yields the same tag again.
+func tagRegistryAcrossConfig(r *hx.Result) {
+	sys.InstallConsole()
+	log.Destroy()
+	log.VerifReset()
+	sys.ResetAppenders()
+	model := map[string]bool{}
+	x, _ := tryRegister("reg_first")
+	_, _ = tryRegister("_reg_second_tag")
+	model["reg_first"], model["_reg_second_tag"] = true, true
+	cfg := sys.Cfg{}
+	cfg.AddRec("tr1")
+	cfg.AddLogger("lg", "Logger", "", "reg_first, cfg_only_tag, C18-Cfg, _only_in_config, zz_*", []sys.Ref{{Ref: "tr1"}}, false, nil)
+	desc := map[string]any{"scenario": "register, Refresh(config naming unregistered and invalid tag strings), register while live, Destroy, register again"}
+	var rerr error
+	if ret, p := hx.Within(8*time.Second, func() { rerr = log.Refresh(cfg.Map(nil)) }); !ret || p != nil || rerr != nil {
+		// the configuration rules are another property's subject; without a live configuration this scenario says nothing
+		log.Destroy()
+		log.VerifReset()
+		return
+	}
+	compareAll(r, model, desc)
+	for _, name := range []string{"brand_new_tag", "cfg_only_tag", "C18-Cfg"} {
+		var p any
+		ret, _ := hx.Within(8*time.Second, func() { p = hx.Catch(func() { log.RegisterTag(name) }) })
+		r.Eval(1)
+		if !ret {
+			r.Violate("registry-blocked", desc, "RegisterTag(%q) under a live configuration did not return within 8 s", name)
+			return
+		}
+		if p == nil && name == "C18-Cfg" {
+			r.Violate("invalid-accepted", desc, "RegisterTag(%q) returned under a live configuration that names this string; the specification rejects it", name)
+		}
+	}
+	compareAll(r, model, desc)
+	if ret, p := hx.Within(8*time.Second, func() { log.Destroy() }); !ret || p != nil {
+		r.Violate("registry-blocked", desc, "Destroy returned=%v panic=%v", ret, p)
+		return
+	}
+	compareAll(r, model, desc)
+	var again *log.Tag
+	var p any
+	ret, _ := hx.Within(8*time.Second, func() { p = hx.Catch(func() { again = log.RegisterTag("reg_first") }) })
+	r.Eval(1)
+	switch {
+	case !ret:
+		r.Violate("registry-blocked", desc, "RegisterTag of an already registered name after Destroy did not return within 8 s")
+		return
+	case p != nil || again != x:
+		r.Violate("not-idempotent", desc, "RegisterTag(%q) after a configuration cycle: panic=%v same tag=%v", "reg_first", p, again == x)
+	}
+	if _, panicked := tryRegister("C18-Cfg"); !panicked {
+		r.Violate("invalid-accepted", desc, "RegisterTag(%q) returned after the configuration that named it was destroyed", "C18-Cfg")
+	}
+	if _, panicked := tryRegister("cfg_only_tag"); panicked {
+		r.Violate("valid-rejected", desc, "RegisterTag(%q) panicked after Destroy", "cfg_only_tag")
+	}
+	model["cfg_only_tag"] = true
+	compareAll(r, model, desc)
 	log.VerifReset()
 }
 
